@@ -165,8 +165,8 @@ def check_property(prop, tier="quick", seed=0, repo=None, spec=None):
         path = os.path.join("replays", f"{prop}-bounded-{v.get('check', 'x')}-{n}.json")
         json.dump({"property": prop, "kind": "bounded", "check": v.get("check"), "klass": v.get("klass"), "input": v.get("input"),
                    "observed": v.get("observed"), "replay": f"{PY} bounded/run.py {prop} --replay {path}"}, open(os.path.join(ROOT, path), "w"), indent=1)
-        violations.append((path, f"bounded check {v.get('check')} failed on the real code: {v.get('observed')}", True))
-        if len(violations) >= 5:
+        violations.append((path, f"bounded check {v.get('check')} failed on the real code: {str(v.get('observed'))[:220]}", True))
+        if len(violations) >= 3:
             break
     # ---- refuted obligations
     for r in refuted:
